@@ -9,6 +9,7 @@ package varmq
 import (
 	"bufio"
 	"fmt"
+	"sort"
 	"strconv"
 	"strings"
 
@@ -207,7 +208,7 @@ func writeBatchSlices(w *bufio.Writer, s *vt.Sched, tag string) int {
 				emit(b, fmt.Sprintf("bclose %d", ev.Tid))
 			}
 		case ev.Kind == "recv" && ev.Site == 0:
-			emit(chanOf[ev.Obj], fmt.Sprintf("brecv %d %s", ev.Tid, ev.Val))
+			emit(chanOf[ev.Obj], fmt.Sprintf("brecv %d %s", ev.Tid, ev.Val[:1]))
 		}
 	}
 	n := 0
@@ -549,4 +550,217 @@ func projectDisp(s *vt.Sched, j int, qid string) ([]string, bool) {
 		}
 	}
 	return out, true
+}
+
+// writeWakeSlices emits the worker-level wake-up protocol of coq/SliceWake.v: every change of the
+// event loop's guard inputs (status, curProcessing, concurrency, pending jobs) with the flag
+// "this thread goes on to notify", every notify, receive, park, close / reopen of the signal
+// channel. Single-worker episodes without distributed queues only.
+func writeWakeSlices(w *bufio.Writer, s *vt.Sched, tag string) int {
+	workers := map[int]bool{}
+	for _, ev := range s.Log {
+		if ev.Kind == "ad:subscribe" {
+			return 0
+		}
+		if si := siteTab[ev.Site]; si.Field == "curProcessing" && ev.Owner != 0 {
+			workers[ev.Owner] = true
+		}
+	}
+	if len(workers) != 1 {
+		return 0
+	}
+	tags, coveredMarks := sizeTags(s)
+	type cand struct {
+		idx  int
+		tid  int
+		line string // with %s for the notify flag
+	}
+	var cands []cand
+	var lines []struct {
+		idx  int
+		text string
+	}
+	add := func(idx int, text string) {
+		lines = append(lines, struct {
+			idx  int
+			text string
+		}{idx, text})
+	}
+	isLoop := map[int]bool{}
+	closedChans := map[int]bool{}
+	conc0 := ""
+	cur := 0
+	inRestart := map[int]int{}
+	var notifies []struct{ idx, tid int }
+	for idx, ev0 := range s.Log {
+		ev := ev0
+		if tg, ok := tags[idx]; ok {
+			ev = vt.Event{Tid: ev0.Tid, Kind: tg.kind, Obj: tg.job, Val: tg.val}
+		} else if coveredMarks[idx] {
+			continue
+		}
+		si := siteTab[ev.Site]
+		fn := si.Func
+		t := ev.Tid
+		switch ev.Kind {
+		case "enter":
+			if fn == "worker.Restart" {
+				inRestart[t]++
+			}
+			continue
+		case "leave":
+			if fn == "worker.Restart" {
+				inRestart[t]--
+			}
+			continue
+		case "start":
+			if strings.HasPrefix(siteName(ev.Site), "worker.goEventLoop/") {
+				isLoop[t] = true
+			}
+			continue
+		}
+		actor := "other"
+		if isLoop[t] {
+			actor = "loop"
+		}
+		switch {
+		case ev.Kind == "q:enq" && strings.HasPrefix(ev.Val, "1"), ev.Kind == "ad:enq" && ev.Val == "1":
+			cands = append(cands, cand{idx, t, "kpend " + actor + " 1 1 %s"})
+		case ev.Kind == "q:deq", ev.Kind == "ad:deq" && strings.HasPrefix(ev.Val, "1"):
+			cands = append(cands, cand{idx, t, "kpend " + actor + " 0 1 %s"})
+		case ev.Kind == "q:purge":
+			f := strings.Fields(ev.Val)
+			cands = append(cands, cand{idx, t, "kpend " + actor + " 0 " + f[1] + " %s"})
+		case ev.Kind == "ad:purge":
+			cands = append(cands, cand{idx, t, "kpend " + actor + " 0 " + ev.Val + " %s"})
+		case si.Field == "curProcessing" && ev.Kind == "add":
+			v, _ := strconv.Atoi(ev.Val)
+			up := "0"
+			if v == cur+1 {
+				up = "1"
+			}
+			cur = v
+			cands = append(cands, cand{idx, t, "kcur " + actor + " " + up + " %s"})
+		case si.Field == "status" && strings.HasPrefix(fn, "worker.") && ev.Kind == "store":
+			cands = append(cands, cand{idx, t, "kstatus " + ev.Val + " %s"})
+		case ev.Kind == "lock" && fn == "worker.Restart" && si.Field == "mx":
+			// Restart creates the new channels inside this critical section (notify takes the read lock)
+			add(idx, "kopen")
+		case ev.Kind == "ad:inject":
+			cands = append(cands, cand{idx, t, "kpend " + actor + " 1 1 %s"})
+		case si.Field == "concurrency" && ev.Kind == "store":
+			if conc0 == "" {
+				conc0 = ev.Val
+				continue
+			}
+			cands = append(cands, cand{idx, t, "kconc " + ev.Val + " %s"})
+		case ev.Kind == "trysend" && si.Field == "eventLoopSignal":
+			notifies = append(notifies, struct{ idx, tid int }{idx, t})
+			add(idx, "knotify")
+		case ev.Kind == "recv" && strings.HasPrefix(siteName(ev.Site), "worker.goEventLoop/") && strings.HasPrefix(ev.Val, "1"):
+			if closedChans[ev.Obj] {
+				continue // a previous run's loop draining the signal left in its closed channel
+			}
+			add(idx, "kpark")
+			add(idx, "krecv")
+		case ev.Kind == "close" && si.Field == "eventLoopSignal":
+			closedChans[ev.Obj] = true
+			add(idx, "kclose")
+		}
+	}
+	if conc0 == "" {
+		return 0
+	}
+	// the notify flag of a step: the same thread sends on the signal channel before its next step of this kind
+	for i, c := range cands {
+		next := len(s.Log)
+		for _, d := range cands[i+1:] {
+			if d.tid == c.tid {
+				next = d.idx
+				break
+			}
+		}
+		n := "0"
+		for _, nt := range notifies {
+			if nt.tid == c.tid && nt.idx > c.idx && nt.idx < next {
+				n = "1"
+				break
+			}
+		}
+		add(c.idx, fmt.Sprintf(c.line, n))
+	}
+	sort.SliceStable(lines, func(a, b int) bool { return lines[a].idx < lines[b].idx })
+	fmt.Fprintf(w, "WAKE %s %s\n", tag, conc0)
+	for _, l := range lines {
+		w.WriteString("k " + l.text + "\n")
+	}
+	// at the end of the episode the event loop is parked (or gone); nobody may still owe a notify
+	rest := "0"
+	if !s.Hang && !s.Livelock && len(s.Panics) == 0 {
+		rest = "1"
+	}
+	fmt.Fprintf(w, "ENDWAKE %s\n", rest)
+	return 1
+}
+
+// writeRespSlices emits, per response object of a single error / result job (batch streams are
+// the batch slice's), the channel operations of coq/SliceResp.v
+func writeRespSlices(w *bufio.Writer, s *vt.Sched, tag string) int {
+	batchResp := map[int]bool{}
+	for _, ev := range s.Log {
+		if ev.Kind == "batch:resp" {
+			batchResp[ev.Obj] = true
+		}
+	}
+	lines := map[int][]string{}
+	var order []int
+	vals := map[int]map[string]int{}
+	num := func(r int, d string) int {
+		if vals[r] == nil {
+			vals[r] = map[string]int{}
+		}
+		if v, ok := vals[r][d]; ok {
+			return v
+		}
+		vals[r][d] = len(vals[r]) + 1
+		return vals[r][d]
+	}
+	emit := func(r int, l string) {
+		if r == 0 || batchResp[r] {
+			return
+		}
+		if _, ok := lines[r]; !ok {
+			order = append(order, r)
+		}
+		lines[r] = append(lines[r], l)
+	}
+	for _, ev := range s.Log {
+		fn := siteFunc(ev.Site)
+		switch {
+		case ev.Kind == "send" && fn == "Response.Send":
+			emit(ev.Owner, fmt.Sprintf("rsend %d", num(ev.Owner, ev.Val)))
+		case ev.Kind == "close" && fn == "Response.Close":
+			emit(ev.Owner, "rclose")
+		case ev.Kind == "recv" && fn == "Response.Response":
+			if strings.HasPrefix(ev.Val, "1 ") {
+				emit(ev.Owner, fmt.Sprintf("rrecv 1 %d", num(ev.Owner, ev.Val[2:])))
+			} else {
+				emit(ev.Owner, "rrecv 0 0")
+			}
+		case ev.Kind == "recv" && fn == "Response.Drain":
+			if strings.HasPrefix(ev.Val, "1 ") {
+				emit(ev.Owner, fmt.Sprintf("rrecv 1 %d", num(ev.Owner, ev.Val[2:])))
+			}
+		}
+	}
+	n := 0
+	for _, r := range order {
+		fmt.Fprintf(w, "RESP %s o%d\n", tag, r)
+		for _, l := range lines[r] {
+			w.WriteString("r " + l + "\n")
+		}
+		fmt.Fprintf(w, "ENDRESP\n")
+		n++
+	}
+	return n
 }
